@@ -110,3 +110,35 @@ func vhEqInt(a, b int) int {
 	}
 	return 0
 }
+
+// VH_C20_order: a directory next to siblings whose names extend its name with a
+// character that sorts before the path separator: the load order is the lexical
+// order of the paths relative to the hooks directory, not the walk order.
+func VH_C20_order() {
+	tmp, err := os.MkdirTemp("", "zzverif")
+	zz.Assume(err == nil)
+	root := tmp + "/hooks"
+	zz.Assume(os.Mkdir(root, 0o755) == nil)
+	dir := zz.OneOf("dir", "sub", "a")
+	sib := zz.OneOf("sibling", "sub.sh", "sub-x", "t", "a.b", "a0")
+	child := zz.OneOf("child", "hook", "x.sh")
+	zz.Assume(dir != sib)
+	zz.Assume(os.Mkdir(root+"/"+dir, 0o755) == nil)
+	for _, p := range []string{root + "/" + dir + "/" + child, root + "/" + sib} {
+		zz.Assume(os.WriteFile(p, []byte("#!/bin/sh\n"), 0o644) == nil)
+		zz.Assume(os.Chmod(p, 0o755) == nil)
+	}
+	hm := NewHookManager(&ManagerConfig{WorkingDir: root, TempDir: tmp, Logger: log.NewNop()})
+	vExecFn = func(hookName, dir, entrypoint string, args []string) ([]byte, error) { return []byte("cfg"), nil }
+	config.VLoadAndValidateFn = func(c *config.HookConfig, data []byte) error { c.Version = "v1"; return nil }
+	zz.Assert(hm.Init() == nil, "init_succeeds_when_all_configs_load")
+	names := hm.GetHookNames()
+	zz.Assert(len(names) == 2, "exactly_the_discovered_hooks")
+	if len(names) == 2 {
+		zz.Assert(names[0] < names[1], "hooks_loaded_in_lexical_order")
+		zz.Assert(zz.Or(names[0] == sib, names[1] == sib), "hook_named_by_relative_path")
+		zz.Assert(zz.Or(names[0] == dir+"/"+child, names[1] == dir+"/"+child), "hook_named_by_relative_path")
+	}
+	os.RemoveAll(tmp)
+	zz.Reach("end")
+}
